@@ -52,3 +52,11 @@ Lemma gen_compute_slots rq :
 Proof.
   unfold g_compute_spectrum_slot_vs_bandwidth, rq_nb_wl, rq_required, rq_pcm. split; reflexivity.
 Qed.
+
+(* compute_n_m: the decision taken for one (N, M) of the request, as translated from the if/elif chain of its loop body *)
+Lemma gen_cnm_step test req rem pcm p s : g_cnm_step test req rem pcm p s = cnm_step test rem pcm p s.
+Proof. destruct s as [[n|] [m|]]; reflexivity. Qed.
+
+(* pth_assign_spectrum, one request: the skip / NOT_ENOUGH_RESERVED_SPECTRUM / NO_SPECTRUM / commit decisions *)
+Lemma gen_pth_assign_one p st rq : g_pth_assign_one p st rq = pth_assign_one p st rq.
+Proof. reflexivity. Qed.
